@@ -338,7 +338,7 @@ pub fn prepare(st: &Selected, src: &Path, thorough: bool, ext: Option<&ExtOps>) 
         let m_be = Model::new(&inl_be);
         for (big, m, inl) in [(false, &m_le, &inl_le), (true, &m_be, &inl_be)] {
             let pkg = format!("{ns}{}", if big { "be" } else { "le" });
-            let vg = ValueGen { m, budget: if thorough { Budget::thorough() } else { Budget { max_values: 60, pairs: true, nested_alts: 3, max_array_len: 20 } } };
+            let vg = ValueGen { m, budget: if thorough { Budget { max_values: 400, pairs: true, nested_alts: 4, max_array_len: 300 } } else { Budget { max_values: 60, pairs: true, nested_alts: 3, max_array_len: 20 } } };
             for ty in &types {
                 let decl = m.decl(ty);
                 schema.push(schema_line(m, &pkg, ty, ty, false));
@@ -837,7 +837,7 @@ pub fn check_on(tier: Tier, only: Option<Vec<Selected>>) -> i32 {
     }
     let thorough = tier == Tier::Thorough;
     let limit: usize = std::env::var("PDLMC_LIMIT").ok().and_then(|s| s.parse().ok()).unwrap_or(usize::MAX);
-    let stride: usize = std::env::var("PDLMC_JAVA_STRIDE").ok().and_then(|s| s.parse().ok()).unwrap_or(if thorough { 16 } else { 2 });
+    let stride: usize = std::env::var("PDLMC_JAVA_STRIDE").ok().and_then(|s| s.parse().ok()).unwrap_or(if thorough { 32 } else { 2 });
     let group: usize = std::env::var("PDLMC_JAVA_GROUP").ok().and_then(|s| s.parse().ok()).unwrap_or(16);
     let jobs: Vec<&Selected> = sel.states.iter().step_by(if single { 1 } else { stride.max(1) }).take(limit).collect();
     let timers = Timers { cc: AtomicU64::new(0), run: AtomicU64::new(0) };
